@@ -117,6 +117,11 @@ def run_C06(ctx, R):
     # "before and after a serialization round trip"
     ser.rule_ser(ctx, R)
     acc.rule_accessors(ctx, R)
+    # offsets: the adapters / decoder that feed positions to every iterator, and the constructors that start them at 0
+    lazy.rule_lazy_adapt(ctx, R)
+    lazy.rule_lazy_ctor(ctx, R, rules={"LAZY-CTOR"})
+    lazy.rule_dec(ctx, R)
+    search.rule_iter_leftmost(ctx, R, rules={"ITER-LM", "SAFE-STR", "ITER-LABEL"})
 
 
 def run_C07(ctx, R):
@@ -245,6 +250,8 @@ def run_C16(ctx, R):
     cli.rule_cli_args(ctx, R)
     cli.rule_cli_guard(ctx, R)
     cli.rule_cli_pats(ctx, R)
+    cli.rule_cli_lines(ctx, R)
+    cli.rule_cli_print(ctx, R)
     search.rule_iter_standard(ctx, R, kinds=("find", "nosuffix"), rules={"ITER-OUT", "ITER-HEAD", "LAZY-END", "ITER-STATE", "ITER-LABEL", "ITER-ONE"})
     # the line filter / interval union rest on the standard automaton being right (C02/C05's construction clauses)
     E = Env(ctx, R)
